@@ -1,10 +1,35 @@
 """C10 — relationship queries agree with the tree's actual shape."""
 from __future__ import annotations
 
+import re
+
 import build as B
 import common as H
 from common import Case
-from props.C15 import call, on, nl, onat, bl
+from props.C15 import call, onat, bl
+
+
+#: pairs of DISTINCT objects that compare equal (==) and hash equal, of five sorts
+EQ_UNIV = ["e:1", "e:1", "t:1,2", "t:1,2", "i:4", "i:4", "d:3", "d:3", "s:q", "s:q"]
+
+
+def spine_shape(rng, depth):
+    """nested tuples: one chain of `depth` levels running through a random position of every sibling list"""
+    cur = ()
+    for _ in range(depth - 1):
+        kids = [rng.choice([(), (), ((),)]) for _ in range(rng.randint(0, 2))]
+        kids.insert(rng.randint(0, len(kids)), cur)
+        cur = tuple(kids)
+    top = [rng.choice([(), ((),)]) for _ in range(rng.randint(0, 2))]
+    top.insert(rng.randint(0, len(top)), cur)
+    return tuple(top)
+
+
+def deep_chain(n):
+    nodes = []
+    for i in reversed(range(n)):
+        nodes = [[i % len(EQ_UNIV), None, f"k{i}", nodes]]
+    return nodes
 
 
 def num(x):
@@ -25,29 +50,51 @@ class Prop:
     case_module = "CaseNav"
     case_vo = "theories/Cases/CaseNav.vo"
     run_fn = "run10"
-    shard = 100
+    shard = 30
     rule = ("plain trees: every ordered forest with <= N nodes (N=5 quick, 6 thorough) with three labelings each (distinct strings; "
             "equal-comparing objects under distinct explicit data_ids; mixed with clones in different parents) plus seeded random trees "
-            "up to 25 nodes; every query of node.py:373-540 on every node, every ordered pair for the ancestor/descendant/common-ancestor "
-            "tests, up(k) for k=0..depth+1, Tree.calc_height.  A case is one tree; distinct = distinct (shape, labeling); non-trivial = >= 3 nodes")
+            "up to 25 (thorough 34) nodes; TYPED trees (every forest <= 4 nodes with alternating kinds + random ones; the plain queries are observed "
+            "through the ANY_KIND / any_kind=True variants TypedNode offers); DEEP random trees (depth >= 8) and SPINES of depth 8..12 that run "
+            "through a random position of every sibling list; WIDE forests "
+            "whose many siblings (and top-level nodes) hold equal-comparing data of several sorts (value-equal objects, equal tuples, "
+            "equal ints, equal frozen dataclasses, equal strings) under distinct data_ids; every query of node.py:373-540 on every node, "
+            "every ordered pair for the ancestor/descendant/common-ancestor tests, up(k) for k=0..depth+1, Tree.calc_height, tree.children / get_toplevel_nodes / first_child / last_child / len / "
+            "count and count_descendants of the system root.  "
+            "A case is one tree; distinct = distinct (typed, shape, labeling); non-trivial = >= 3 nodes")
     exhaustive_note = "all shapes <= N nodes (N=5 quick) x 3 labelings"
     assumptions = ["identity of nodes is the allocation index recorded by a harness-side wrapper of Node.__init__"]
     manifest = dict(
         text=("Machine-checked theorems (Coq 8.16, no axioms) about an executable model of the relationship queries: the context a node "
-              "identity resolves to is the structural one (a real parent-child path to a top-level node, the parent's child list), and "
-              "parent/children/siblings/first/last/prev/next/index/depth/ancestor list/top/up/descendant counts/height/is-*/ancestor-"
-              "descendant tests/nearest common ancestor are the functions of that context the property describes, by identity (never by "
-              "data equality); tied to /repo on every run by a correspondence check over all forests <=5 nodes x 3 labelings + random "
-              "trees (every node, every ordered pair) and an independent pointer-walking Python oracle."),
-        note=("Trusted: Coq kernel + vm_compute; hand-written model theories/Forest/Nav.v (tied by the correspondence only); harness. "
-              "Partial in one respect: the converse of C10_descendant_sound (a node inside a's branch has a among its ancestors) and the "
-              "'common ancestor of other as well' half are stated on node identities of the located contexts, not re-derived from "
-              "pre-order membership; the correspondence/oracle cover them. Print Assumptions: closed under the global context."),
+              "identity resolves to is the structural one and is unique; its ancestor chain is exactly the list of nodes whose branch "
+              "contains the node, in pre-order; parent/children/siblings/first/last/prev/next/index/depth/ancestor list/top/up/descendant "
+              "counts/height/is-*/ancestor-descendant tests/nearest common ancestor are the functions of that context the property "
+              "describes, by identity (never by data equality), and satisfy the mutual-consistency laws (children/parent inverse, "
+              "depth of a child = S depth of its parent, height = depth of the deepest descendant, Tree.calc_height = largest depth, "
+              "counts = |pre-order of the branch| - 1 = sum over children, path = joined names top first, up(j+k) = up(j) of up(k), "
+              "get_top = the unique top-level node containing the node, is_descendant_of <-> membership in the branch (both directions), "
+              "irreflexive/asymmetric/transitive, is_ancestor_of its converse, common ancestor = the deepest node containing both, "
+              "symmetric, None exactly across top-level branches, next/prev sibling inverse); lexical facts of node.py (identity search, "
+              "subscripts, counters) are lifted by gen_facts and proved to be what the model computes; tied to /repo on every run by a "
+              "correspondence check over all forests <=5 nodes x 3 labelings + typed, deep, wide-equal and random trees (every node, "
+              "every ordered pair) and an independent pointer-walking Python oracle."),
+        note=("Trusted: Coq kernel + vm_compute; hand-written model theories/Forest/Nav.v (tied by the correspondence and, for the "
+              "lexical facts of section NAV of Generated.v, by proof obligations); harness. All statements are derived from pre-order "
+              "membership for every forest with unique node identities and every node / ordered pair (NavLaws.v). "
+              "Print Assumptions: closed under the global context."),
         technique="Coq proof about an executable Gallina model + differential correspondence check (vm_compute) + Python oracle",
         design_ref="DESIGN.md section 6 (C10)",
     )
 
     def descs(self, tier, rng):
+        # the big cases (deep / spine / wide / random) are generated last; spread them evenly over the shards of the
+        # correspondence run (contiguous chunks of `shard` cases are evaluated in parallel)
+        self.shard = 30 if tier == "quick" else 25     # cases per case file (files are evaluated in parallel)
+        ds = list(self._descs(tier, rng))
+        stride = max(1, -(-len(ds) // self.shard))
+        for r in range(stride):
+            yield from ds[r::stride]
+
+    def _descs(self, tier, rng):
         nmax = 5 if tier == "quick" else 6
         yield from CORPUS
         for n in range(1, nmax + 1):
@@ -63,10 +110,47 @@ class Prop:
                 yield dict(univ=univ, nodes=B.shape_to_nodes(shape, lambda i, d, s: ((d + s) % 4, None, None if s < 4 else f"x{i}")))
         nrand = 40 if tier == "quick" else 400
         for _ in range(nrand):
-            n = rng.randint(6, 25 if tier == "quick" else 40)
+            n = rng.randint(6, 25 if tier == "quick" else 34)
             shape = H.random_shape(rng, n, deep=rng.choice([0.2, 0.5, 0.85]))
             univ = ["e:1"] * n
             yield dict(univ=univ, nodes=B.shape_to_nodes(shape, lambda i, d, s: (i, None, f"k{i}")))
+        # (d) typed trees: the plain queries through the ANY_KIND / any_kind=True variants
+        for n in range(1, (4 if tier == "quick" else 5) + 1):
+            for shape in H.forests(n):
+                yield dict(typed=True, univ=["e:1"] * n,
+                           nodes=B.shape_to_nodes(shape, lambda i, d, s: (i, "ab"[(i + d) % 2], f"k{i}")))
+        for _ in range(20 if tier == "quick" else 150):
+            n = rng.randint(6, 16 if tier == "quick" else 22)
+            shape = H.random_shape(rng, n, deep=rng.choice([0.2, 0.5, 0.85]))
+            ks = [rng.choice("abc") for _ in range(n)]
+            yield dict(typed=True, univ=["e:1"] * n, nodes=B.shape_to_nodes(shape, lambda i, d, s, ks=ks: (i, ks[i], f"k{i}")))
+        # (e) deep trees: depth >= 8
+        for _ in range(14 if tier == "quick" else 120):
+            for _try in range(50):
+                n = rng.randint(10, 22 if tier == "quick" else 28)
+                shape = H.random_shape(rng, n, deep=rng.choice([0.8, 0.9, 0.97]))
+                nodes = B.shape_to_nodes(shape, lambda i, d, s: (i % len(EQ_UNIV), None, f"k{i}"))
+                if B.nodes_depth(nodes) >= 8:
+                    break
+            else:
+                nodes = deep_chain(n)
+            yield dict(univ=EQ_UNIV, nodes=nodes)
+        # (g) spines: depth 8..12, the chain continues through a RANDOM position of each sibling list (so the deepest
+        #     leaf, the path to it and the common ancestors are not always first children), small side branches
+        for _ in range(12 if tier == "quick" else 100):
+            shape = spine_shape(rng, rng.randint(8, 12))
+            lab = rng.choice([None, 0, 2])
+            yield dict(univ=EQ_UNIV, nodes=B.shape_to_nodes(
+                shape, lambda i, d, s, lab=lab: ((i % len(EQ_UNIV)) if lab is None else lab + (i % 2), None, f"k{i}")))
+        # (f) wide forests: many siblings / top-level nodes with equal-comparing data of several sorts
+        for _ in range(14 if tier == "quick" else 100):
+            n = rng.randint(8, 18 if tier == "quick" else 24)
+            shape = H.random_shape(rng, n, deep=rng.choice([0.0, 0.05, 0.15]))
+            lab = [rng.randrange(len(EQ_UNIV)) for _ in range(n)]
+            yield dict(univ=EQ_UNIV, nodes=B.shape_to_nodes(shape, lambda i, d, s, lab=lab: (lab[i], None, f"k{i}")))
+            # one sort only: every sibling compares equal to every other
+            one = rng.choice([0, 2, 4, 6, 8])
+            yield dict(univ=EQ_UNIV, nodes=B.shape_to_nodes(shape, lambda i, d, s, one=one: (one + (i % 2), None, f"k{i}")))
 
     def shrink_candidates(self, desc):
         for nodes in B.drop_one_node(desc["nodes"]):
@@ -91,6 +175,29 @@ class Prop:
             desc = d2
             tree, U = B.build(desc)
         nodes = B.all_nodes(tree._root)
+        # compact case terms: node identities are renumbered locally (pre-order, 1..n; 0 = system root) in the model
+        # input and in the observation alike (a bijection on the nodes of this tree)
+        local = {H.nid(x): i + 1 for i, x in enumerate(nodes)}
+        local[0] = 0
+
+        def lid(x):
+            return -1 if x is None else local[H.nid(x)]
+
+        def on(x):
+            if isinstance(x, tuple) and x and x[0] == "ERR":
+                return [-1, x[1]]
+            return [] if x is None else [lid(x)]
+
+        def nl(x):
+            if isinstance(x, tuple) and x and x[0] == "ERR":
+                return [-1, x[1]]
+            return [lid(y) for y in x]
+
+        typed = bool(desc.get("typed"))
+        # TypedNode overrides the child / sibling accessors with a mandatory kind / an any_kind flag (default False);
+        # the plain relationship queries of a typed tree are their ANY_KIND / any_kind=True forms
+        KA = (H.ANY_KIND,) if typed else ()
+        KW = dict(any_kind=True) if typed else {}
 
         def obs_node(n):
             depth = call(lambda: n.depth())
@@ -98,17 +205,17 @@ class Prop:
             ups = []
             for k in range(0, d + 2):
                 r = call(lambda: n.up(k))
-                ups.append(-1 if isinstance(r, tuple) else H.nid(r))
+                ups.append(-1 if isinstance(r, tuple) else lid(r))
             top = call(lambda: n.get_top())
             return [
-                on(call(lambda: n.parent)), nl(call(lambda: n.children)), on(call(lambda: n.first_child())), on(call(lambda: n.last_child())),
-                nl(call(lambda: n.get_siblings(add_self=False))), nl(call(lambda: n.get_siblings(add_self=True))),
-                on(call(lambda: n.first_sibling())), on(call(lambda: n.last_sibling())),
-                on(call(lambda: n.prev_sibling())), on(call(lambda: n.next_sibling())),
-                onat(call(lambda: n.get_index())), num(depth), num(call(lambda: n.calc_height())),
-                -1 if isinstance(top, tuple) else H.nid(top),
-                bl(call(lambda: n.is_top())), bl(call(lambda: n.is_leaf())), bl(call(lambda: n.is_first_sibling())),
-                bl(call(lambda: n.is_last_sibling())), bl(call(lambda: n.has_children())),
+                on(call(lambda: n.parent)), nl(call(lambda: n.children)), on(call(lambda: n.first_child(*KA))), on(call(lambda: n.last_child(*KA))),
+                nl(call(lambda: n.get_siblings(add_self=False, **KW))), nl(call(lambda: n.get_siblings(add_self=True, **KW))),
+                on(call(lambda: n.first_sibling(**KW))), on(call(lambda: n.last_sibling(**KW))),
+                on(call(lambda: n.prev_sibling(**KW))), on(call(lambda: n.next_sibling(**KW))),
+                onat(call(lambda: n.get_index(**KW))), num(depth), num(call(lambda: n.calc_height())),
+                -1 if isinstance(top, tuple) else lid(top),
+                bl(call(lambda: n.is_top())), bl(call(lambda: n.is_leaf())), bl(call(lambda: n.is_first_sibling(**KW))),
+                bl(call(lambda: n.is_last_sibling(**KW))), bl(call(lambda: n.has_children(*KA))),
                 nl(call(lambda: n.get_parent_list(add_self=False, bottom_up=False))),
                 nl(call(lambda: n.get_parent_list(add_self=True, bottom_up=False))),
                 nl(call(lambda: n.get_parent_list(add_self=False, bottom_up=True))),
@@ -119,23 +226,43 @@ class Prop:
             ]
 
         per_node = [obs_node(n) for n in nodes]
-        pairs = [[[bl(call(lambda: a.is_descendant_of(b))), bl(call(lambda: a.is_ancestor_of(b))),
-                   on(call(lambda: a.get_common_ancestor(b)))] for b in nodes] for a in nodes]
-        obs = [per_node, pairs, num(call(lambda: tree.calc_height()))]
-        fail = self.oracle(tree, nodes, obs)
-        return Case(desc=desc, coq_input=H.coq_forest(tree._root, U), impl_obs=obs, oracle_fail=fail,
-                    nontrivial=len(nodes) >= 3, key=H.digest([desc["univ"], desc["nodes"]]),
-                    stats=dict(nodes=len(nodes), depth=B.nodes_depth(desc["nodes"])))
+        def truthy(r):   # an exception is neither True nor False: it shows up as the pseudo-node -1 in the list
+            return r is True
 
-    def oracle(self, tree, nodes, obs):
-        per_node, pairs, th = obs
+        def cid(r):
+            if isinstance(r, tuple) and r and r[0] == "ERR":
+                return -1
+            return 0 if r is None else lid(r)
+
+        pairs = []
+        for a in nodes:
+            dr = [call(lambda: a.is_descendant_of(b)) for b in nodes]
+            ar = [call(lambda: a.is_ancestor_of(b)) for b in nodes]
+            pairs.append([[lid(b) for b, r in zip(nodes, dr) if truthy(r)] + [-1 for r in dr if r not in (True, False)],
+                          [lid(b) for b, r in zip(nodes, ar) if truthy(r)] + [-1 for r in ar if r not in (True, False)],
+                          [cid(call(lambda: a.get_common_ancestor(b))) for b in nodes]])
+        tl1, tl2 = call(lambda: tree.children), call(lambda: tree.get_toplevel_nodes())
+        tree_obs = [nl(tl1) if tl1 == tl2 else [-2], on(call(lambda: tree.first_child(*KA))), on(call(lambda: tree.last_child(*KA))),
+                    num(call(lambda: len(tree))) if call(lambda: len(tree)) == call(lambda: tree.count) else -2,
+                    num(call(lambda: tree.system_root.count_descendants())),
+                    num(call(lambda: tree.system_root.count_descendants(leaves_only=True)))]
+        obs = [per_node, pairs, num(call(lambda: tree.calc_height())), tree_obs]
+        fail = self.oracle(tree, nodes, obs, lid)
+        coq_in = re.sub(r"\(Tz (\d+) ", lambda m: f"(Tz {local[int(m.group(1))]} ", H.coq_forest(tree._root, U))
+        return Case(desc=desc, coq_input=coq_in, impl_obs=obs, oracle_fail=fail,
+                    nontrivial=len(nodes) >= 3, key=H.digest([bool(desc.get("typed")), desc["univ"], desc["nodes"]]),
+                    stats=dict(nodes=len(nodes), depth=B.nodes_depth(desc["nodes"]), typed=int(typed),
+                               max_sibs=max((len(p._children or []) for p in [tree._root] + nodes), default=0)))
+
+    def oracle(self, tree, nodes, obs, lid):
+        per_node, pairs, th, tree_obs = obs
         root = tree._root
 
         def ids(l):
-            return [H.nid(x) for x in l]
+            return [lid(x) for x in l]
 
         def o(x):
-            return [] if x is None else [H.nid(x)]
+            return [] if x is None else [lid(x)]
 
         def chain(n):  # ancestors nearest first, by pointers
             out = []
@@ -167,31 +294,45 @@ class Prop:
             sibs = n._parent._children
             pos = [i for i, c in enumerate(sibs) if c is n]
             if len(pos) != 1:
-                return f"structure: node {H.nid(n)} occurs {len(pos)} times in its parent's child list"
+                return f"structure: node {lid(n)} occurs {len(pos)} times in its parent's child list"
             pos = pos[0]
             ch = n._children or []
             d = len(an) + 1
-            ups = [-1] + [H.nid(a) for a in an] + [0, -1]
+            ups = [-1] + [lid(a) for a in an] + [0, -1]
             pl = list(reversed(an))
             exp = [o(an[0] if an else None), ids(ch), o(ch[0] if ch else None), o(ch[-1] if ch else None),
                    ids([c for c in sibs if c is not n]), ids(sibs), o(sibs[0]), o(sibs[-1]),
                    o(sibs[pos - 1] if pos > 0 else None), o(sibs[pos + 1] if pos + 1 < len(sibs) else None),
-                   [pos], d, height(n), H.nid(an[-1] if an else n), not an, not ch, pos == 0, pos == len(sibs) - 1, bool(ch),
+                   [pos], d, height(n), lid(an[-1] if an else n), not an, not ch, pos == 0, pos == len(sibs) - 1, bool(ch),
                    ids(pl), ids(pl + [n]), ids(an), ids([n] + an),
                    "/" + "/".join(f"{x._data}" for x in pl + [n]), "/" + "/".join(f"{x._data}" for x in pl),
                    desc_count(n, False), desc_count(n, True), ups]
             for j, (g, e) in enumerate(zip(ob, exp)):
                 if g != e:
-                    return f"{names[j]}: node {H.nid(n)} got {g} expected {e}"
+                    return f"{names[j]}: node {lid(n)} got {g} expected {e}"
+        chains = {id(n): [n] + chain(n) for n in nodes}
         for a, row in zip(nodes, pairs):
-            ca = [a] + chain(a)
-            for b, ob in zip(nodes, row):
-                cb = [b] + chain(b)
+            ca = chains[id(a)]
+            exp_desc = [lid(b) for b in nodes if any(b is x for x in ca[1:])]
+            exp_anc = [lid(b) for b in nodes if any(a is x for x in chains[id(b)][1:])]
+            exp_common = []
+            for b in nodes:
+                cb = chains[id(b)]
                 common = next((x for x in ca if any(x is y for y in cb)), None)
-                exp = [any(b is x for x in ca[1:]), any(a is x for x in cb[1:]), o(common)]
-                for j, nm in enumerate(["is_descendant_of", "is_ancestor_of", "get_common_ancestor"]):
-                    if ob[j] != exp[j]:
-                        return f"{nm}: nodes {H.nid(a)},{H.nid(b)} got {ob[j]} expected {exp[j]}"
+                exp_common.append(0 if common is None else lid(common))
+            for j, (nm, e) in enumerate([("is_descendant_of", exp_desc), ("is_ancestor_of", exp_anc)]):
+                if row[j] != e:
+                    return f"{nm}: node {lid(a)} answers True exactly for {row[j]} expected {e}"
+            for b, g, e in zip(nodes, row[2], exp_common):
+                if g != e:
+                    return f"get_common_ancestor: nodes {lid(a)},{lid(b)} got {g} expected {e} (0 = None)"
+        top = root._children or []
+        exp_tree = [ids(top), o(top[0] if top else None), o(top[-1] if top else None), len(nodes), len(nodes),
+                    sum(1 for n in nodes if not n._children)]
+        for nm, g, e in zip(["tree.children/get_toplevel_nodes", "tree.first_child", "tree.last_child", "len(tree)/tree.count",
+                             "system_root.count_descendants", "system_root.count_descendants(leaves_only)"], tree_obs, exp_tree):
+            if g != e:
+                return f"{nm}: got {g} expected {e}"
         eh = max((len(chain(n)) + 1 for n in nodes), default=0)
         if th != eh:
             return f"Tree.calc_height: got {th} expected {eh}"
